@@ -29,7 +29,9 @@ CONSTANTS Users, Roles, Chans, Docs,    \* finite sets of strings
           DocMenu,                      \* set of [d, cs, g]: what a document write may carry
           Lims,                         \* page limits (0 = none)
           MaxSteps,
-          PageGap                       \* BOOLEAN: other actions may happen between the pages of one pull
+          PageGap,                      \* BOOLEAN: other actions may happen between the pages of one pull
+          KeepRoleHist                  \* BOOLEAN: a role created again after deletion keeps its channel history (auth.NewRoleNoChannels copies
+                                        \*          ChannelHistory() = the DEFAULT collection's; a named collection's history is dropped)
 
 Princ == Users \cup Roles
 Inf   == 1000000
@@ -264,6 +266,7 @@ ImplAdminPut(p, cs, rs) ==
       n    == seq + 1
       b    == IF live THEN Loaded(pr, docs, p)
               ELSE [NoP EXCEPT !.ex = TRUE, !.chs = ViewChans(docs, p),
+                               !.chist = IF KeepRoleHist /\ pr[p].ex /\ pr[p].del THEN pr[p].chist ELSE NoP.chist,
                                !.rls = IF p \in Users THEN ViewRoles(docs, p) ELSE NoTS(Roles)]
       chC  == Keys(b.expl) # cs
       chR  == p \in Users /\ Keys(b.rexpl) # rs
@@ -275,7 +278,7 @@ ImplAdminPut(p, cs, rs) ==
      /\ UNCHANGED docs /\ ClientSame
 GhostAdminPut(p, cs, rs) ==      \* the deviation bookkeeping reads the state the call started from (pr, docs)
   /\ gp' = [gp EXCEPT ![p] = [ex |-> TRUE, del |-> FALSE, chans |-> cs, roles |-> rs]] /\ UNCHANGED gd /\ PullSame
-  /\ amnesia' = amnesia \cup (IF p \in Roles /\ pr[p].ex /\ pr[p].del THEN {c \in Chans : pr[p].chist[c] # {}} ELSE {})
+  /\ amnesia' = amnesia \cup (IF ~KeepRoleHist /\ p \in Roles /\ pr[p].ex /\ pr[p].del THEN {c \in Chans : pr[p].chist[c] # {}} ELSE {})
   /\ late' = late \cup (IF p \in Roles /\ ~Live(pr, p) THEN Keys(ViewChans(docs, p)) ELSE {})
 
 ImplRoleDel(r) ==
